@@ -23,6 +23,7 @@ package vs
 // (mc.Main re-runs a check with the racing sites promoted).
 
 import (
+	"fmt"
 	"reflect"
 	"sort"
 	"unsafe"
@@ -142,7 +143,7 @@ func (s *Sched) release(t *thread, obj uintptr) {
 // hbSync moves the clocks for the operation thread t is about to perform.
 func (s *Sched) hbSync(t *thread, o *op) {
 	switch o.kind {
-	case "start", "yield", "sleep", "since", "timer", "plain", "plain-load", "plain-store":
+	case "start", "yield", "sleep", "since", "maporder", "timer", "plain", "plain-load", "plain-store":
 		return
 	case "aload", "pload", "lock", "rlock", "wg-wait":
 		s.acquire(t, o.obj) // observes what earlier stores / unlocks / Done calls published
@@ -285,4 +286,34 @@ func plainAccess(p unsafe.Pointer, size uintptr, store bool, site []string) {
 			Promoted[at] = true
 		}
 	}
+}
+
+// MapOrder returns the keys of m in the order a `for range m` loop of the rewritten code
+// visits them: Go leaves that order unspecified, so under the scheduler it is an environment
+// choice (canonical order by default, the reverse for one deviation); running free it is the
+// canonical order. A result that depends on map iteration order shows up as a difference
+// between two explored executions instead of as an unreproducible flake.
+func MapOrder[M ~map[K]V, K comparable, V any](m M) []K {
+	keys := make([]K, 0, len(m))
+	for k := range m {
+		keys = append(keys, k)
+	}
+	if len(keys) < 2 {
+		return keys
+	}
+	names := make(map[K]string, len(keys))
+	for _, k := range keys {
+		names[k] = fmt.Sprintf("%v", k)
+	}
+	sort.SliceStable(keys, func(i, j int) bool { return names[keys[i]] < names[keys[j]] })
+	if S != nil && !S.killed && S.cur != nil && (S.hb == nil || !S.hb.quiet) {
+		o := &op{kind: "maporder", enabled: alwaysEnabled, nalt: func() int { return 2 }}
+		point(o)
+		if o.alt == 1 {
+			for i, j := 0, len(keys)-1; i < j; i, j = i+1, j-1 {
+				keys[i], keys[j] = keys[j], keys[i]
+			}
+		}
+	}
+	return keys
 }
